@@ -21,7 +21,13 @@ Asg(a) == [j \in 1..3 |-> Bit(a, j)]
 (* a set the table constructor accepted generates and builds *)
 Generates == Rec => C.genErr = ""
 (* the generated decision procedure selects the alternative whose predicates hold *)
-RuntimeSelects == (Rec /\ C.genErr = "") => \A a \in 0..7 :
-   LET sat == Satisfied(C.alts, Asg(a)) IN
-   Cardinality(sat) = 1 => (C.errs[a + 1] = "" /\ C.chosen[a + 1] = CHOOSE i \in sat : TRUE)
+(* Alternatives may start with different terminals (leads[i], nlead of them): on the text with leading terminal l and outcome a, *)
+(* the alternatives in question are those that can start with l.                                                                *)
+RuntimeSelects == (Rec /\ C.genErr = "" /\ C.many = 0) => \A l \in 1..C.nlead, a \in 0..7 :
+   LET sat == { i \in Satisfied(C.alts, Asg(a)) : \E m \in 1..Len(C.leads[i]) : C.leads[i][m] = l }
+       e == (l - 1) * 8 + a + 1 IN
+   Cardinality(sat) = 1 => (C.errs[e] = "" /\ C.chosen[e] = CHOOSE i \in sat : TRUE)
+(* many pairs (?= Qj) / (?= !Qj) in one grammar: text 2j-1 selects the yes branch of pair j (alternative 2j-1), text 2j its no   *)
+(* branch (alternative 2j), however many lookahead nonterminals the grammar has                                                  *)
+ManySelects == (Rec /\ C.genErr = "" /\ C.many > 0) => \A e \in 1..(2 * C.many) : C.errs[e] = "" /\ C.chosen[e] = e
 =============================================================================
